@@ -107,6 +107,7 @@ func genC06(r *Rng, tier string, emit func(Case)) {
 		g2[bit/8] ^= 1 << uint(bit%8)
 		e("wifdec", "bitflip", hs(base58.Encode(g2)))
 		e("wifdec", "extra1", hs("1"+base58.Encode(good)))
+		e("wifdec", "utf8", hs(utf8Variant(r, base58.Encode(good))))
 		raw := r.Bytes(r.Intn(60))
 		for j := range raw {
 			raw[j] = b58alpha[int(raw[j])%58]
